@@ -13,6 +13,7 @@ from checks import kernels_scalar
 def run(ctx):
     kernels_scalar.run_part(ctx, "Props/C09_scalar.v", part="C09")
     ctx.build_props(props_rel="Props/C09.v", extra_targets=kernels_scalar.EXTRA_TARGETS)
+    kernels_scalar.reparse_axioms(ctx)
     try:
         from checks import kernels_vector            # work package F2 (softmax / log_softmax / cross-entropy)
     except ImportError:
